@@ -4,8 +4,9 @@ from vlib import core
 ASSUME = [
     "reference: O(N^2) double-precision DFT of the zero-padded train (bunch b at bucket[b]*spacing), W_j = s/N*[Re(Z0 F0) + 2 Re sum_{0<k<floor(N/2)} Z_k F_k e^{+2 pi i j k/N}], s = Ib*dt*c/(sigma_z*dE_cell) recomputed from the constructor arguments",
     "the top bin floor(N/2) is neither required nor forbidden: the generator zeroes the impedance there; arbitrary values in the upper (negative-frequency) half must have no influence",
+    "a quarter of the impedances end early (zero from a random index below N/2 on, like a short impedance file) and are always asked after another profile's wake",
     "half of the fields are asked for a CSR spectrum (and sometimes a wake of another profile) before the wake that is checked",
-    "program part: trains whose bucket spacing in cells has a chosen fractional part (0.05 ... 0.999): padded profiles must sit at bucket*round(spacing) and the stored wake must be the convolution at that spacing (spacings within 1e-3 of an integer or 2e-4 of a half are not generated)",
+    "program part: trains whose bucket spacing in cells of 2-5 buckets has a chosen fractional part (0.05 ... 0.999, half of them in [0.5, 0.75]): padded profiles must sit at bucket*round(spacing) and the stored wake must be the convolution at that spacing (spacings within 1e-3 of an integer or 2e-4 of a half are not generated)",
     "tolerance 1e-5*max|W| (single-precision FFT; unchanged code observed <= 1e-6)",
 ]
 
@@ -18,6 +19,6 @@ def run(ctx):
     xdg = core.warm_wisdom(ctx, "c06")
     core.run_harness(ctx, "c06", 40000 if th else 1920, args=["--mode", "c06"], xdg=xdg)
     core.run_harness(ctx, "c06", 3000 if th else 192, variant="asan", args=["--mode", "c06"], xdg=xdg)
-    ctx.min_events = {"fields_checked": 1000, "wake_values_compared": 5000, "non_power_of_two_lengths": 100, "fields_with_call_history": 300}
+    ctx.min_events = {"fields_checked": 1000, "wake_values_compared": 5000, "non_power_of_two_lengths": 100, "fields_with_call_history": 300, "impedances_ending_early": 200}
     from checks import c06_prog
     c06_prog.run(ctx)
